@@ -742,7 +742,7 @@ impl ParserListener for Screen {
     fn insert_characters(&mut self, count: Option<u32>) {
         self.dirty.insert(self.cursor.y);
 
-        let count = count.unwrap_or(1);
+        let count = count.unwrap_or(1).max(1);
         let default = self.default_char();
 
         let line = self
@@ -770,7 +770,7 @@ impl ParserListener for Screen {
             Some(margins) => margins.top,
             None => 0,
         };
-        let count = count.unwrap_or(1);
+        let count = count.unwrap_or(1).max(1);
         self.cursor.y = self.cursor.y.saturating_sub(count).max(top);
     }
 
@@ -779,7 +779,7 @@ impl ParserListener for Screen {
             Some(margins) => margins.bottom,
             None => self.lines - 1,
         };
-        let count = count.unwrap_or(1);
+        let count = count.unwrap_or(1).max(1);
         self.cursor.y = (self.cursor.y + count).min(bottom);
     }
 
@@ -794,7 +794,7 @@ impl ParserListener for Screen {
     /// # Parameters
     /// - `count`: Number of columns to skip.
     fn cursor_forward(&mut self, count: Option<u32>) {
-        self.cursor.x += count.unwrap_or(1);
+        self.cursor.x += count.unwrap_or(1).max(1);
         self.ensure_hbounds();
     }
 
@@ -810,8 +810,9 @@ impl ParserListener for Screen {
         if self.cursor.x == self.columns {
             self.cursor.x -= 1
         }
-        if self.cursor.x >= count.unwrap_or(1) {
-            self.cursor.x -= count.unwrap_or(1);
+        let count = count.unwrap_or(1).max(1);
+        if self.cursor.x >= count {
+            self.cursor.x -= count;
         } else {
             self.cursor.x = 0;
         }
@@ -915,7 +916,7 @@ impl ParserListener for Screen {
     ///
     /// - `count`: Number of lines to insert.
     fn insert_lines(&mut self, count: Option<u32>) {
-        let count = count.unwrap_or(1);
+        let count = count.unwrap_or(1).max(1);
         let Margins { top, bottom } = self
             .margins
             .unwrap_or(Margins { top: 0, bottom: self.lines - 1 });
@@ -938,7 +939,7 @@ impl ParserListener for Screen {
     }
 
     fn delete_lines(&mut self, count: Option<u32>) {
-        let count = count.unwrap_or(1);
+        let count = count.unwrap_or(1).max(1);
         let Margins { top, bottom } = self
             .margins
             .unwrap_or(Margins { top: 0, bottom: self.lines - 1 });
